@@ -490,6 +490,8 @@ func main() {
 	}
 	funcs := map[string]*ast.FuncDecl{}
 	users := map[string]bool{}
+	allFuncs := map[string]*ast.FuncDecl{}
+	var timeoutWriters []string
 	callers := map[string]map[string]bool{} // method name -> functions that contain a call x.<name>(...)
 	consts := map[string]string{}
 	for _, en := range ents {
@@ -506,6 +508,19 @@ func main() {
 			case *ast.FuncDecl:
 				if v.Body != nil && mentions(v.Body, "resMu", "resCh") {
 					users[v.Name.Name] = true
+				}
+				allFuncs[v.Name.Name] = v
+				if v.Body != nil {
+					ast.Inspect(v.Body, func(x ast.Node) bool {
+						if as, ok := x.(*ast.AssignStmt); ok {
+							for _, l := range as.Lhs {
+								if sel, ok := l.(*ast.SelectorExpr); ok && sel.Sel.Name == "timeout" {
+									timeoutWriters = append(timeoutWriters, n+":"+v.Name.Name+": "+src(as))
+								}
+							}
+						}
+						return true
+					})
 				}
 				if v.Recv != nil && len(v.Recv.List) == 1 && strings.TrimPrefix(src(v.Recv.List[0].Type), "*") == "MessageProtocol" {
 					mpMethods[v.Name.Name] = v
@@ -673,6 +688,58 @@ func main() {
 	}
 	reqPrelude := preludeReturns("onRequest", oq.Body.List[:handlerAt])
 
+	// Exact statement lists of the small functions around the skeleton (the public entry points, the retry loop with its post-loop
+	// return, the responder side, the message constructors with the fresh ID, the constructor with the timeout) and of the part of
+	// onResponse under resMu: any change there breaks the obligation (these bodies are short and rarely touched).
+	type pinned struct {
+		name  string
+		stmts []string
+	}
+	var pins []pinned
+	for _, fn := range []string{"RequestFrom", "Broadcast", "request", "respond", "newMessageProtocol"} {
+		f := funcs[fn]
+		if f == nil || f.Body == nil {
+			fail("%s not found in message_protocol.go", fn)
+		}
+		var st []string
+		for _, x := range f.Body.List {
+			st = append(st, src(x))
+		}
+		pins = append(pins, pinned{fn, st})
+	}
+	for _, fn := range []string{"newRequestMessage", "newResponseMessage"} {
+		f := allFuncs[fn]
+		if f == nil || f.Body == nil {
+			fail("%s not found", fn)
+		}
+		var st []string
+		for _, x := range f.Body.List {
+			st = append(st, src(x))
+		}
+		pins = append(pins, pinned{fn, st})
+	}
+	{
+		var st []string
+		for _, x := range expand(or.Body.List[lockAt:], 0) {
+			st = append(st, src(x))
+		}
+		pins = append(pins, pinned{"onResponse/locked", st})
+	}
+	sort.Strings(timeoutWriters)
+	// the statements of the part of onResponse before the lock that are not early returns (reads, decoding, the rate limiter step)
+	{
+		var st []string
+		for _, x := range or.Body.List[:lockAt] {
+			if ifs, ok := x.(*ast.IfStmt); ok && ifs.Else == nil && len(ifs.Body.List) > 0 {
+				if _, ok := ifs.Body.List[len(ifs.Body.List)-1].(*ast.ReturnStmt); ok {
+					continue
+				}
+			}
+			st = append(st, src(x))
+		}
+		pins = append(pins, pinned{"onResponse/before-lock (without the early returns)", st})
+	}
+
 	var b strings.Builder
 	b.WriteString("(* GENERATED by translate/reqresp from pkg/p2p/message_protocol.go - do not edit. *)\n")
 	b.WriteString("From Coq Require Import List NArith String.\nFrom LE Require Import P2P.ReqResp.\nImport ListNotations.\nLocal Open Scope N_scope.\n\n")
@@ -680,7 +747,17 @@ func main() {
 	b.WriteString("Definition gen_onresp_skel : list tok :=\n  [" + strings.Join(oe.toks, "; ") + "].\n\n")
 	b.WriteString(fmt.Sprintf("Definition gen_max_retries : N := %d.\nDefinition gen_timeout_ms : N := %d.\n\n", retries, timeoutMs))
 	b.WriteString("Definition gen_onresp_drops : list String.string :=\n  " + coqStrings(respPrelude) + "%string.\n\n")
-	b.WriteString("Definition gen_onreq_drops : list String.string :=\n  " + coqStrings(reqPrelude) + "%string.\n")
+	b.WriteString("Definition gen_onreq_drops : list String.string :=\n  " + coqStrings(reqPrelude) + "%string.\n\n")
+	b.WriteString("Definition gen_pinned_bodies : list (String.string * list String.string) :=\n  [")
+	for i, pn := range pins {
+		if i > 0 {
+			b.WriteString(";\n   ")
+		}
+		b.WriteString("(\"" + pn.name + "\"%string,\n    " + coqStrings(pn.stmts) + "%string)")
+	}
+	b.WriteString("].\n\n")
+	b.WriteString("(* functions (other than the constructor's composite literal) that assign a .timeout field in the package *)\n")
+	b.WriteString("Definition gen_timeout_writers : list String.string :=\n  " + coqStrings(timeoutWriters) + "%string.\n")
 	if *out == "" {
 		fmt.Print(b.String())
 		return
